@@ -20,6 +20,11 @@ def families(tier, seed):
                 if tier == "thorough":
                     out.append(dict(tag=f"{tag}/{T}/{dt}/heun", features=dict(feats, dt=dt), kind="run", model=model, T=T, dt=dt,
                                     dts=None, solver="heun", vec=vec))
+    # Connectivity (matrix) edges: same meaning as on scalar edges (C16 has the full population family)
+    for tag, feats, ps in gen.c16_cases(seed):
+        if tag.startswith("P6"):
+            dt = feats.get("dt", 0.05)
+            out.append(dict(tag=tag, features=feats, kind="population", ps=ps, T=10 * dt if dt >= 0.05 else 0.5, dt=dt))
     return out
 
 
@@ -31,7 +36,7 @@ def main():
              "delay with different spread, shared sources, shared targets, mixtures with undelayed edges, 4-node rings; "
              "vectorize off and on; every user state variable, every row against the explicit chain of n = round((d/s)^2) "
              "first-order stages of rate n/d (spec_fixed_step); distinct = distinct (model, T, dt, solver, vectorize)",
-        sample_of=cases.sample_of)
+        sample_of=lambda c: {k: v for k, v in c.items() if k not in ('features',)})
     rc = chk.finish(
         explanation="Bounded: run() of every family member against the explicitly written augmented ODE system integrated "
                     "with the same fixed-step scheme by the spec. Unit gain and mean delay d follow from the chain definition "
